@@ -126,7 +126,7 @@ Qed.
 (* ---- one event preserves the invariant ---- *)
 Lemma step_ok : forall S e, net_ok S -> net_ok (fst (step S e)).
 Proof.
-  intros S e [Hnd Hall]. destruct e as [i j | i j adv | i j | i j | i | i]; simpl.
+  intros S e [Hnd Hall]. destruct e as [i j | i j adv | i j adv | i j | i j | i | i]; simpl.
   - (* Fetch *)
     destruct (getr S i) as [ri|] eqn:Gi; [|split; assumption].
     destruct (getr S j) as [rj|] eqn:Gj; [|split; assumption].
@@ -171,6 +171,8 @@ Proof.
         right. rewrite <- Si. auto.
     + rewrite U2. destruct (i =? j) eqn:E; [lia|]. rewrite <- Si. exact Zi.
     + rewrite <- Si. exact Ni.
+  - (* LateUpdate: the deleted neighbour object carries no advertisement; nothing happens *)
+    destruct (getr S i); split; assumption.
   - (* NbrUp *)
     destruct (getr S i) as [ri|] eqn:Gi; [|split; assumption].
     destruct (memN j (nbrs ri) || (i =? j)) eqn:Mj; [split; assumption|]. simpl.
@@ -255,3 +257,7 @@ Proof.
   intros S evs i ro Hok Hg. destruct (run_ok evs S Hok) as [_ Hall].
   apply getr_some in Hg. destruct (Hall ro (proj1 Hg)) as (R & _). apply rib_ok_adv_ok. exact R.
 Qed.
+
+(* a ribUpdate that runs late, on the state object of a neighbour already removed, changes nothing *)
+Lemma late_update_noop : forall S i j adv, step S (LateUpdate i j adv) = (S, false).
+Proof. intros S i j adv. simpl. destruct (getr S i); reflexivity. Qed.
